@@ -17,6 +17,7 @@ KNOWN_BY_CORPUS = {
     '003-vec-int-i31.sam': 'C04-vec-int-i31',
     '004-string-constant-escapes.sam': 'C04-string-constants',
     '005-string-constant-non-ascii.sam': 'C04-string-constants',
+    '007-vec-capacity.sam': 'C04-vec-capacity-is-backend-specific',
 }
 
 
@@ -129,6 +130,8 @@ def run(tier, seed, replay=None):
         if d is None:
             continue
         klass = 'C04-div-rounding' if strict_div_excluded(prog, i) else None
+        if klass is None and any('.capacity()' in t for t in prog['sources'].values()):
+            klass = 'C04-vec-capacity-is-backend-specific'
         ck.property_failure('TypeScript and WebAssembly back ends differ: ' + d, {'sources': prog['sources'], 'entry': prog['entry']},
                             expected={'wasm': {'lines': wasm['lines'][:40], 'ending': wasm['ending']}},
                             observed={'ts': {'lines': ts['lines'][:40], 'ending': ts['ending']}},
